@@ -65,15 +65,25 @@ def axisEvents (inc : Nat) (s dir dmin dmax : Rat) : List (Rat × Int) :=
   let step : Int := if 0 < dir then (inc : Int) else -(inc : Int)
   (arangeQ (cFirst s dir dmin) dmax (absK (1 / dir))).map fun t => (t, step)
 
-/-- the `for j in range(ndim)` loop: `cdist`/`add` appended axis by axis; `inc[j] = Π shp[j+1:]` -/
-def events : List Nat → List Rat → List Rat → Rat → Rat → List (Rat × Int)
-  | _ :: sh, s :: ss, d :: ds, dmin, dmax => axisEvents (prodL sh) s d dmin dmax ++ events sh ss ds dmin dmax
-  | _, _, _, _, _ => []
+/-- the per-axis data `(inc[j], start[j], direction[j])` with `inc[j] = Π shp[j+1:]` (the code's `inc` array) -/
+def axes : List Nat → List Rat → List Rat → List (Nat × Rat × Rat)
+  | _ :: sh, s :: ss, d :: ds => (prodL sh, s, d) :: axes sh ss ds
+  | _, _, _ => []
+
+/-- the `for j in range(ndim)` loop: `cdist`/`add` appended axis by axis -/
+def eventsA (dmin dmax : Rat) : List (Nat × Rat × Rat) → List (Rat × Int)
+  | [] => []
+  | a :: ax => axisEvents a.1 a.2.1 a.2.2 dmin dmax ++ eventsA dmin dmax ax
+
+def events (shape : List Nat) (s dir : List Rat) (dmin dmax : Rat) : List (Rat × Int) :=
+  eventsA dmin dmax (axes shape s dir)
 
 /-- `pos1 = np.sum(np.asarray(start + dmin·direction, dtype=np.int64) · inc)` -/
-def pos1 : List Nat → List Rat → List Rat → Rat → Int
-  | _ :: sh, s :: ss, d :: ds, dmin => truncQ (s + dmin * d) * (prodL sh : Int) + pos1 sh ss ds dmin
-  | _, _, _, _ => 0
+def pos1A (dmin : Rat) : List (Nat × Rat × Rat) → Int
+  | [] => 0
+  | a :: ax => truncQ (a.2.1 + dmin * a.2.2) * (a.1 : Int) + pos1A dmin ax
+
+def pos1 (shape : List Nat) (s dir : List Rat) (dmin : Rat) : Int := pos1A dmin (axes shape s dir)
 
 /-- `np.cumsum(np.append(pos1, add))` -/
 def cumsum : Int → List Int → List Int
